@@ -499,3 +499,64 @@ Proof.
   intros Hin. destruct (views_agree_border m (0, 0, 0, 0)) as (_ & M & _). rewrite M. unfold mask_of.
   rewrite get_build by apply Hin. f_equal. apply eq_bool_iff. rewrite memp_In, border_native_scan, filter_In, scan_In. tauto.
 Qed.
+
+(* ------------------------------------------------------------------ blurring: the statements of the property text *)
+Lemma blurring_exact m kh kw b : rectb m = true -> odd_pos kh = true -> odd_pos kw = true ->
+  blurring_from m kh kw = Ok b ->
+  sameshape b m /\
+  forall y x, inarr m y x ->
+    (get b y x = false <->
+     get m y x = true /\ exists y' x', inarr m y' x' /\ get m y' x' = false
+                                        /\ Z.abs (y - y') <= half kh /\ Z.abs (x - x') <= half kw).
+Proof. intros Hr Hkh Hkw E. rewrite blurring_from_odd in E by assumption. now apply blur_spec_exact. Qed.
+
+Lemma blurring_error_iff_footprint_leaves m kh kw : rectb m = true -> odd_pos kh = true -> odd_pos kw = true ->
+  (blurring_from m kh kw = Raise MaskException <->
+   exists y x, inarr m y x /\ get m y x = false /\ ~ footprint_in m kh kw y x).
+Proof. intros Hr Hkh Hkw. rewrite blurring_from_odd by assumption. apply blur_spec_raise_iff. Qed.
+
+Lemma blurring_ok_iff_footprints_inside m kh kw : rectb m = true -> odd_pos kh = true -> odd_pos kw = true ->
+  ((exists b, blurring_from m kh kw = Ok b) <->
+   forall y x, inarr m y x -> get m y x = false -> footprint_in m kh kw y x).
+Proof. intros Hr Hkh Hkw. rewrite blurring_from_odd by assumption. apply blur_spec_ok_iff. Qed.
+
+Lemma blurring_result_or_mask_exception m kh kw : rectb m = true -> odd_pos kh = true -> odd_pos kw = true ->
+  (exists b, blurring_from m kh kw = Ok b) \/ blurring_from m kh kw = Raise MaskException.
+Proof. intros Hr Hkh Hkw. rewrite blurring_from_odd by assumption. apply blur_spec_total. Qed.
+
+Lemma edge_buffed_is_spec m : rectb m = true -> mask_edge_buffed m = buffed_spec m 1.
+Proof. intros Hr. unfold mask_edge_buffed. apply buffed_is_spec; [assumption|lia]. Qed.
+
+(* ------------------------------------------------------------------ statement-shaped corollaries used by Props/C10.v *)
+Lemma edge_slim_exact m k : In k (edge_slim m) <->
+  0 <= k < Z.of_nat (length (unmasked_pixels m)) /\ interior m (pixel_of_slim m k) = false.
+Proof. rewrite <- (negb_true_iff (interior m (pixel_of_slim m k))). exact (edge_slim_In m k). Qed.
+
+Lemma check_if_edge_pixel_is m y x : 0 <= y < shape0 m /\ 0 <= x < shape1 m ->
+  check_if_edge_pixel m y x = negb (interior m (y, x)).
+Proof. exact (cie_touches m (y, x)). Qed.
+
+Lemma slim_index_bijection m :
+  (forall k, 0 <= k < Z.of_nat (length (unmasked_pixels m)) -> In (pixel_of_slim m k) (unmasked_pixels m)) /\
+  (forall p, In p (unmasked_pixels m) -> exists k, 0 <= k < Z.of_nat (length (unmasked_pixels m)) /\ pixel_of_slim m k = p) /\
+  (forall j k, 0 <= j < Z.of_nat (length (unmasked_pixels m)) -> 0 <= k < Z.of_nat (length (unmasked_pixels m)) ->
+               pixel_of_slim m j = pixel_of_slim m k -> j = k) /\
+  (forall p, In p (unmasked_pixels m) <-> (0 <= fst p < shape0 m /\ 0 <= snd p < shape1 m) /\ getp m p = false).
+Proof. exact (conj (slim_pixel_unmasked m) (conj (unmasked_has_slim m) (conj (slim_injective m) (unmasked_In m)))). Qed.
+
+(* example masks for the non-vacuity Example: a hole, a diagonal contact, an interior pixel, unmasked pixels on the
+   outer row and columns; and a padded mask for the blurring results *)
+Definition ex_mask : mask :=
+  [[true;  false; false; false; true;  true];
+   [true;  false; false; false; false; true];
+   [false; false; false; false; false; true];
+   [true;  false; false; true;  false; false];
+   [true;  false; false; false; false; true];
+   [true;  true;  true;  true;  true;  true]].
+Definition ex_padded : mask :=
+  [[true; true; true;  true;  true;  true; true];
+   [true; true; true;  true;  true;  true; true];
+   [true; true; false; false; true;  true; true];
+   [true; true; true;  false; true;  true; true];
+   [true; true; true;  true;  true;  true; true];
+   [true; true; true;  true;  true;  true; true]].
